@@ -4,6 +4,10 @@
 //	-maporder pkg,pkg   every `range` over a map becomes a loop over
 //	                    maporder.Keys(m) (explorer-owned iteration order)
 //	-vos file,file      the file's "os" import is pointed at verif/shim/vos
+//	-yield pkg,pkg      a call of sched.Yield() is inserted before every statement
+//	                    of the package (scheduling points of the cooperative
+//	                    scheduler) and its "sync" import is pointed at
+//	                    verif/shim/vsync
 //	-out dir            where the generated files and overlay.json go
 //
 // Map-typed operands are identified with go/types, so range statements added
@@ -17,10 +21,12 @@ import (
 	"fmt"
 	"go/ast"
 	"go/format"
+	"go/parser"
 	"go/token"
 	"go/types"
 	"os"
 	"path/filepath"
+	"sort"
 	"strconv"
 	"strings"
 
@@ -33,6 +39,7 @@ const repoMod = "github.com/shutter-network/rolling-shutter/rolling-shutter"
 func main() {
 	mo := flag.String("maporder", "", "comma separated package paths relative to the module")
 	vosFiles := flag.String("vos", "", "comma separated files relative to the module")
+	yi := flag.String("yield", "", "comma separated package paths relative to the module")
 	out := flag.String("out", "/verif/.gen/overlay", "output directory")
 	repo := flag.String("repo", "/repo/rolling-shutter", "module root")
 	flag.Parse()
@@ -45,9 +52,18 @@ func main() {
 		vosSet[filepath.Join(*repo, f)] = true
 	}
 	var pats []string
+	moSet, yieldSet := map[string]bool{}, map[string]bool{}
 	for _, p := range split(*mo) {
 		pats = append(pats, repoMod+"/"+p)
+		moSet[repoMod+"/"+p] = true
 	}
+	for _, p := range split(*yi) {
+		if !moSet[repoMod+"/"+p] {
+			pats = append(pats, repoMod+"/"+p)
+		}
+		yieldSet[repoMod+"/"+p] = true
+	}
+	yields := 0
 	counter := 0
 	if len(pats) > 0 {
 		cfg := &packages.Config{
@@ -65,16 +81,31 @@ func main() {
 			}
 			for i, file := range pkg.Syntax {
 				_ = i; path := pkg.Fset.File(file.Pos()).Name()
-				n := rewriteRanges(pkg.Fset, file, pkg.TypesInfo, &counter)
+				n := 0
+				if moSet[pkg.PkgPath] {
+					n = rewriteRanges(pkg.Fset, file, pkg.TypesInfo, &counter)
+				}
+				doYield := yieldSet[pkg.PkgPath] && !strings.HasSuffix(path, "verif_hooks.go")
 				if vosSet[path] {
 					rewriteOS(pkg.Fset, file)
 					delete(vosSet, path)
 					n++
 				}
-				if n == 0 {
+				if n == 0 && !doYield {
 					continue
 				}
-				write(pkg.Fset, file, path, *out, *repo, overlay)
+				dst := write(pkg.Fset, file, path, *out, *repo, overlay)
+				if doYield {
+					src, err := os.ReadFile(dst)
+					if err != nil {
+						die(err)
+					}
+					instrumented, k := insertYields(path, src)
+					yields += k
+					if err := os.WriteFile(dst, instrumented, 0o644); err != nil {
+						die(err)
+					}
+				}
 			}
 		}
 	}
@@ -85,7 +116,7 @@ func main() {
 	if err := os.WriteFile(filepath.Join(*out, "overlay.json"), b, 0o644); err != nil {
 		die(err)
 	}
-	fmt.Printf("rewrite: %d map ranges rewritten, %d files in overlay\n", counter, len(overlay))
+	fmt.Printf("rewrite: %d map ranges rewritten, %d yield points inserted, %d files in overlay\n", counter, yields, len(overlay))
 }
 
 func split(s string) []string {
@@ -103,7 +134,7 @@ func die(err error) {
 	os.Exit(2)
 }
 
-func write(fset *token.FileSet, file *ast.File, path, out, repo string, overlay map[string]string) {
+func write(fset *token.FileSet, file *ast.File, path, out, repo string, overlay map[string]string) string {
 	var buf bytes.Buffer
 	if err := format.Node(&buf, fset, file); err != nil {
 		die(fmt.Errorf("%s: %v", path, err))
@@ -114,6 +145,7 @@ func write(fset *token.FileSet, file *ast.File, path, out, repo string, overlay 
 		die(err)
 	}
 	overlay[path] = dst
+	return dst
 }
 
 func rewriteOS(fset *token.FileSet, file *ast.File) {
@@ -227,4 +259,67 @@ func rewriteRanges(fset *token.FileSet, file *ast.File, info *types.Info, counte
 		astutil.AddNamedImport(fset, file, "maporder__", "verif/maporder")
 	}
 	return n
+}
+
+// insertYields puts a call of sched__.Yield() before every statement of every
+// statement list of the source (function bodies, blocks, case and select
+// clauses) and points a "sync" import at the scheduler-aware shim. It works on
+// the source text (insertions at statement offsets), so comments and compiler
+// directives stay where they are.
+func insertYields(path string, src []byte) ([]byte, int) {
+	fset := token.NewFileSet()
+	file, err := parser.ParseFile(fset, path, src, parser.ParseComments)
+	if err != nil {
+		die(err)
+	}
+	type edit struct {
+		at, end int // replace src[at:end]
+		text    string
+	}
+	var edits []edit
+	n := 0
+	mark := func(list []ast.Stmt) {
+		for _, st := range list {
+			switch st.(type) {
+			case *ast.CaseClause, *ast.CommClause:
+				continue // the body of a switch / select is a list of clauses
+			}
+			off := fset.Position(st.Pos()).Offset
+			edits = append(edits, edit{off, off, "sched__.Yield(); "})
+			n++
+		}
+	}
+	ast.Inspect(file, func(node ast.Node) bool {
+		switch x := node.(type) {
+		case *ast.BlockStmt:
+			mark(x.List)
+		case *ast.CaseClause:
+			mark(x.Body)
+		case *ast.CommClause:
+			mark(x.Body)
+		}
+		return true
+	})
+	for _, imp := range file.Imports {
+		if imp.Path.Value == `"sync"` {
+			a, b := fset.Position(imp.Pos()).Offset, fset.Position(imp.End()).Offset
+			edits = append(edits, edit{a, b, `sync "verif/shim/vsync"`})
+			n++
+		}
+	}
+	if n == 0 {
+		return src, 0
+	}
+	// the import of the scheduler goes right after the package clause
+	pkgEnd := fset.Position(file.Name.End()).Offset
+	edits = append(edits, edit{pkgEnd, pkgEnd, "\n\nimport sched__ \"verif/sched\"\n"})
+	sort.SliceStable(edits, func(i, j int) bool { return edits[i].at > edits[j].at })
+	out := append([]byte{}, src...)
+	for _, e := range edits {
+		out = append(out[:e.at], append([]byte(e.text), out[e.end:]...)...)
+	}
+	if _, err := parser.ParseFile(token.NewFileSet(), path, out, 0); err != nil {
+		die(fmt.Errorf("%s: instrumented source does not parse: %v", path, err))
+	}
+	return out, n
 }
